@@ -1048,6 +1048,7 @@ class Event:
             file.write(f'{indent} flexanimations samples_use_time{curve}\n{indent}  {{\n')
             for track in self.flex_anim_tracks:
                 track.export_text(file, indent, default_curve)
+            file.write(f'{indent}  }}\n')
 
         if isinstance(self, LoopEvent):
             file.write(f'{indent} loopcount "{self.loop_count}"\n')
